@@ -6,21 +6,32 @@ Import ListNotations.
 Local Open Scope R_scope.
 
 (** ** IoniFinalStateHelper *)
-Lemma ioni_final_inv (e_inc : R) dir p_inc m_inc t_e m_e s r s' :
+Lemma ioni_final_inv_gen (e_inc : R) dir p_inc m_inc t_e m_e s r s' :
+  ioni_final e_inc dir p_inc m_inc t_e m_e s = Some (r, s') ->
+  exists sdir, exiting_direction (ioni_costheta e_inc p_inc m_inc t_e m_e) dir s = Some (sdir, s') /\
+    r = Inter Scattered (e_inc - t_e)
+          (if Rltb 0 (e_inc - t_e) then calc_exiting_direction p_inc dir (sqrt (t_e * (t_e + 2 * m_e))) sdir else dir)
+          [Sec PElectron t_e sdir] 0.
+Proof.
+  unfold ioni_final. intros E. apply bind_some in E as (sdir & s1 & E1 & E). apply ret_some in E.
+  inversion E; subst. exists sdir. split; [exact E1|reflexivity].
+Qed.
+(** the primary keeps moving (T_e < E): direction from the momentum balance *)
+Lemma ioni_final_inv (e_inc : R) dir p_inc m_inc t_e m_e s r s' : t_e < e_inc ->
   ioni_final e_inc dir p_inc m_inc t_e m_e s = Some (r, s') ->
   exists sdir, exiting_direction (ioni_costheta e_inc p_inc m_inc t_e m_e) dir s = Some (sdir, s') /\
     r = Inter Scattered (e_inc - t_e)
           (calc_exiting_direction p_inc dir (sqrt (t_e * (t_e + 2 * m_e))) sdir) [Sec PElectron t_e sdir] 0.
 Proof.
-  unfold ioni_final. intros E. apply bind_some in E as (sdir & s1 & E1 & E). apply ret_some in E.
-  inversion E; subst. exists sdir. split; [exact E1|reflexivity].
+  intros Hlt E. apply ioni_final_inv_gen in E as (sdir & E1 & Hr). exists sdir. split; [exact E1|].
+  assert (Hb : Rltb 0 (e_inc - t_e) = true) by (apply Rltb_true; lra). rewrite Hb in Hr. exact Hr.
 Qed.
 
 Theorem ioni_energy_conserved (e_inc : R) dir p_inc m_inc t_e m_e s r s' :
   ioni_final e_inc dir p_inc m_inc t_e m_e s = Some (r, s') ->
   e_inc = i_energy r + sec_energy_sum (i_secs r) + i_deposit r.
 Proof.
-  intros E. apply ioni_final_inv in E as (sdir & _ & Hr). subst r.
+  intros E. apply ioni_final_inv_gen in E as (sdir & _ & Hr). subst r.
   unfold sec_energy_sum. cbn [i_energy i_secs i_deposit map nsum s_energy]. numR. ring.
 Qed.
 
@@ -103,7 +114,7 @@ Theorem ioni_momentum_conserved (e_inc m_inc t_e m_e : R) dir s r s' sec :
   vz dir * p_inc = vz (i_dir r) * p_out + vz (s_dir sec) * p_e.
 Proof.
   intros HM Hm HE [Ht0 Ht] HtE Hd Hb E Hsec.
-  apply ioni_final_inv in E as (sdir & Ed & Hr). subst r. cbn [i_secs] in Hsec. inversion Hsec; subst sec.
+  apply (ioni_final_inv _ _ _ _ _ _ _ _ _ HtE) in E as (sdir & Ed & Hr). subst r. cbn [i_secs] in Hsec. inversion Hsec; subst sec.
   cbn [i_energy i_dir s_energy s_dir]. cbv zeta.
   set (pinc := sqrt (e_inc * e_inc + 2 * m_inc * e_inc)) in *.
   set (pe := sqrt (t_e * (t_e + 2 * m_e))) in *.
@@ -142,7 +153,7 @@ Theorem ioni_outputs_valid (e_inc m_inc t_e m_e : R) dir s r s' :
 Proof.
   intros [Hm HmM] HE [Ht0 Ht] HtE Hd E.
   assert (HM : 0 < m_inc) by lra.
-  apply ioni_final_inv in E as (sdir & Ed & Hr). subst r.
+  apply (ioni_final_inv _ _ _ _ _ _ _ _ _ HtE) in E as (sdir & Ed & Hr). subst r.
   set (pinc := sqrt (e_inc * e_inc + 2 * m_inc * e_inc)) in *.
   assert (Hct : 0 < ioni_costheta e_inc pinc m_inc t_e m_e <= 1)
     by (apply ioni_costheta_range; try assumption; lra).
@@ -158,6 +169,27 @@ Proof.
         by (rewrite Heq; reflexivity).
       unfold pinc in Hsqeq. rewrite !sqrt_sqrt in Hsqeq by nra. nra.
   - split; [reflexivity|]. eexists; split; [reflexivity|]. cbn [s_pid s_energy s_dir]. repeat split; assumption.
+Qed.
+
+(** the primary is stopped by the collision (T_e = E <= T_max, Bhabha at eps = 1): since /repo a57af2a it keeps the
+    incident direction (a unit vector), zero energy; the secondary is valid as before *)
+Theorem ioni_outputs_valid_stopped_primary (e_inc m_inc m_e : R) dir s r s' :
+  0 < m_e <= m_inc -> 0 < e_inc -> e_inc <= tmax_R m_inc e_inc m_e -> unitv dir ->
+  ioni_final e_inc dir (sqrt (e_inc * e_inc + 2 * m_inc * e_inc)) m_inc e_inc m_e s = Some (r, s') ->
+  i_action r = Scattered /\ i_energy r = 0 /\ i_dir r = dir /\ unitv (i_dir r) /\ i_deposit r = 0 /\
+  exists sec, i_secs r = [sec] /\ s_pid sec = PElectron /\ s_energy sec = e_inc /\ unitv (s_dir sec).
+Proof.
+  intros [Hm HmM] HE Ht Hd E. assert (HM : 0 < m_inc) by lra.
+  apply ioni_final_inv_gen in E as (sdir & Ed & Hr). subst r.
+  set (pinc := sqrt (e_inc * e_inc + 2 * m_inc * e_inc)) in *.
+  assert (Hct : 0 < ioni_costheta e_inc pinc m_inc e_inc m_e <= 1)
+    by (apply ioni_costheta_range; try assumption; lra).
+  assert (Hcos : -1 <= ioni_costheta e_inc pinc m_inc e_inc m_e <= 1) by lra.
+  destruct (exiting_direction_spec _ _ _ _ _ Ed Hcos Hd) as (u & _ & Hsd & _).
+  assert (Hb : Rltb 0 (e_inc - e_inc) = false) by (apply Rltb_false; lra). rewrite Hb.
+  cbn [i_action i_energy i_dir i_deposit i_secs].
+  split; [reflexivity|]. split; [ring|]. split; [reflexivity|]. split; [exact Hd|]. split; [reflexivity|].
+  eexists; split; [reflexivity|]. cbn [s_pid s_energy s_dir]. repeat split; assumption.
 Qed.
 
 (** ** energy samplers: supports *)
@@ -264,7 +296,7 @@ Proof.
   assert (Htmax : tmax_R (mb_me p) (mb_energy p) (mb_me p) = mb_energy p).
   { unfold tmax_R. field. nra. }
   assert (Hte_lt : mb_energy p * eps < mb_energy p).
-  { pose proof (ioni_final_inv _ _ _ _ _ _ _ _ _ E2) as (sdir & _ & Hr). subst r.
+  { pose proof (ioni_final_inv_gen _ _ _ _ _ _ _ _ _ E2) as (sdir & _ & Hr). subst r.
     specialize (Hlt _ eq_refl). cbn [s_energy] in Hlt. exact Hlt. }
   unfold calc_momentum in E2. numR.
   replace (mb_energy p * mb_energy p + 2 * mb_me p * mb_energy p)
